@@ -9,6 +9,8 @@
 let engines : (string * (string list -> string)) list = [
   "charset", E_charset.run;
   "regex", E_regex.run;
+  "looprange", E_looprange.run;
+  "strconv", E_strconv.run;
 ]
 (* engines with an oracle of their own: (cases tokens, impl result) -> None | Some msg *)
 let oracles : (string * (string list -> string -> string -> string option)) list = [
